@@ -204,6 +204,22 @@ def r3(ctx):
         stores = None
     else:
         raise AnchorMissing("result.entry(key) (or the get_mut / insert idiom) in normalize_headers: %d entry, %d insert, %d lookup, %d push" % (len(ents), len(ins), len(lks), len(ps)))
+    # the map is written by the idiom's own store(s) and by nothing else: a later `get_mut(name)` / `values_mut()` /
+    # `remove` pass that re-joins, merges or drops the values of some name changes that header's canonical line
+    MUT = r"HashMap::<K, V, S, A>::(get_mut|get_many_mut|iter_mut|values_mut|retain|remove\w*|drain|entry|insert|extend|clear|extract_if|raw_entry_mut|into_iter|into_values)$|IndexMut::index_mut$|Extend::extend$|IntoIterator::into_iter$"
+    mcalls = [(bi_, t_) for bi_, t_ in b.calls(MUT) if "std::collections::HashMap<std::string::String, std::vec::Vec<std::vec::Vec<u8>>" in " ".join(t_.get("arg_tys", [])[:1])]
+    allowed = {"entry": 1} if (len(ents) == 1 and not ins) else {"get_mut": 1, "insert": 1} if (not ents and len(ins) == 1) else {}
+    seen = {}
+    for bi_, t_ in mcalls:
+        nm_ = t_["callee"].split("::")[-1]
+        seen[nm_] = seen.get(nm_, 0) + 1
+    over = {k_: v_ for k_, v_ in seen.items() if v_ > allowed.get(k_, 0)}
+    ctx.count(max(1, len(mcalls)))
+    if over:
+        fb_ = [bi_ for bi_, t_ in mcalls if t_["callee"].split("::")[-1] in over]
+        yield VIOL("C11-R3", "normalize_headers/map-rewritten", "the header map is also written through %s besides the store of each (name, value): the value list of some name is re-joined, merged or dropped after collection" % sorted(over), where=b.span_of_block(fb_[-1]))
+    else:
+        yield PASS("C11-R3", "normalize_headers/map-written-once", "mutable access to the map: %s only" % (sorted(seen) or ["collect"]), [])
     # every header is stored: every way from the iteration's Some edge back to the loop head passes a store;
     # iteration is over the whole HeaderMap
     its = b.calls(r"HeaderMap::<T>::iter$") + [x for x in b.calls(r"IntoIterator::into_iter$") if re.match(r"^<&http::HeaderMap(<[^>]*>)? as std::iter::IntoIterator>::into_iter$", x[1].get("resolved_full", ""))]
@@ -469,7 +485,7 @@ def r6(ctx):
 
     n = 0
     for r in c01.r4(ctx):
-        if "separator" in r.key or "header-values-all" in r.key:
+        if "separator" in r.key or "header-values-all" in r.key or "ingredient" in r.key:
             r.rule = "C11-R6"
             n += 1
             yield r
